@@ -891,6 +891,7 @@ pub fn run_c04(args: &RunArgs, rep: &Reporter, keep_valid: Option<&Shared>, max_
     let invalid_by_rule: Mutex<BTreeMap<String, u64>> = Mutex::new(BTreeMap::new());
     let distinct = DistinctSet::new();
     let feature_cov: Mutex<BTreeSet<String>> = Mutex::new(BTreeSet::new());
+    let json_subjects = crate::c15::sem_json_subjects();
     let stats = explore(
         &ExploreCfg { max_dev, threads: args.threads, budget: Duration::from_secs(budget) },
         |c: &mut Chooser| {
@@ -919,6 +920,15 @@ pub fn run_c04(args: &RunArgs, rep: &Reporter, keep_valid: Option<&Shared>, max_
                 feature_cov.lock().unwrap().insert(l);
             }
             let case = || json!({"text": text, "picks": c.picks(), "deviations": c.deviation_labels()});
+            // the same document against the schema read back from its introspection result
+            if let Ok(Err(diags)) = crate::c15::json_check(&json_subjects[0], &text) {
+                let d = &diags[0];
+                rep.report(Violation {
+                    key: format!("introspection_schema.rejects_valid:{}:{}", d.stage, d.kind),
+                    what: format!("spec-valid document gets a diagnostic when the schema is read from its introspection result: {} ({})", d.msg, d.kind),
+                    case: case(),
+                });
+            }
             match subject_check(&text) {
                 Err(p) => rep.report(Violation { key: format!("panic@{}", p.key()), what: format!("panic at {}: {}", p.site, p.msg), case: case() }),
                 Ok(Ok(())) => {}
@@ -1177,6 +1187,8 @@ pub fn run03(args: &RunArgs) -> i32 {
     let distinct = DistinctSet::new();
     let generate_runs = AtomicU64::new(0);
     let pool = crate::worker::Pool::new("c03-generate", args.threads);
+    let json_subjects = crate::c15::sem_json_subjects();
+    let json_route = AtomicU64::new(0);
     crate::explore::par_for(bases.len(), args.threads, |bi| {
         let base = &bases[bi];
         for (rule, tag, m) in mutants(base, &sch) {
@@ -1201,6 +1213,16 @@ pub fn run03(args: &RunArgs) -> i32 {
             *per_rule.lock().unwrap().entry(rule.to_string()).or_insert(0) += 1;
             let allowed: BTreeSet<&str> = labels.iter().filter(|l| IMPLEMENTED_OP.contains(l)).flat_map(|l| allowed_kinds(l).iter().copied()).collect();
             let case = || json!({"rule": rule, "site": tag, "text": text, "reference_findings": findings.iter().map(|f| format!("{}: {}", f.rule, f.detail)).collect::<Vec<_>>()});
+            // the same verdict when the schema comes from an introspection result (every optional key present, as a
+            // current server answers): `check` validates operations against whatever schema the project configures
+            if let Ok(Ok(())) = crate::c15::json_check(&json_subjects[0], &text) {
+                json_route.fetch_add(1, Ordering::Relaxed);
+                rep.report(Violation {
+                    key: format!("introspection_schema.accepts_invalid:{rule}[{tag}]"),
+                    what: format!("document violating {rule} ({tag}) gets no diagnostic when the schema is read from its introspection result"),
+                    case: case(),
+                });
+            }
             match subject_check(&text) {
                 Err(p) => rep.report(Violation { key: format!("panic@{}", p.key()), what: format!("check panicked at {}: {}", p.site, p.msg), case: case() }),
                 Ok(Ok(())) => {
@@ -1265,6 +1287,7 @@ pub fn run03(args: &RunArgs) -> i32 {
         vec![
             "R-VALID-OP confirms every mutant for its rule; a diagnostic of any rule the reference also reports is accepted".into(),
             "rules the statement does not list (field merging, argument/input-field uniqueness, default value types, unused variables/fragments) are not demanded".into(),
+            "every confirmed mutant is also checked against the schema read back from its introspection result (all optional keys present)".into(),
             "projects: one faulty definition per rule family at every position a definition can take in a multi-file project (own file, fragment-only file imported by name / wildcard / transitively / by two files / in a cycle, file with an operation, the importing file); `nitrogql-cli check` must fail and name the file, and must agree with the library route; the same positions with a valid definition must be accepted".into(),
         ],
     )
